@@ -89,6 +89,11 @@ def unit_family(rng, ns, nd, ttol, stol, small_dev=True, placements=G.PLACEMENTS
     eps = lambda: rng.choice(e_in if rng.random() < 0.8 else e_out)
     dl = rng.choice(d_in if rng.random() < 0.8 else d_out) if small_dev else Fr(0)
     dl2 = rng.choice([dl, Fr(0), -dl])
+    if small_dev and rng.random() < 0.4:
+        # anisotropic: each axis independently inside / on / outside stol of the integer, incl. pairs that agree
+        # with each other within stol while one of them is up to 2*stol off
+        mult = [Fr(4, 5), Fr(8, 5), Fr(6, 5), Fr(-7, 10), Fr(-3, 2), Fr(1, 2), Fr(9, 5), Fr(-6, 5), Fr(1), Fr(-1), Fr(0)]
+        dl, dl2 = st * rng.choice(mult), st * rng.choice(mult)
     return [sx * (1 + dl), Fr(0), offs[0] + eps(), Fr(0), sy * (1 + dl2), offs[1] + eps()]
 
 
@@ -394,10 +399,14 @@ def p_warp_accumulate(dst_shape, tiles, dtype, fill, seed):
     return True, why
 
 
+MIXED_POOL = {"int8": [0, 1, 5, 100, 126, 127, 3, 60, 90, 120], "default": [0, 1, 5, 100, 126, 127, 128, 129, 200, 250]}
+
+
 def p_warp_mixed(src_shape, dst_shape, A, src_dtype, dst_dtype, dst_nodata, seed):
-    """source and destination of different pixel types through the public rio_reproject: the warp must equal
-    the planned paste (values cast to the destination type) on a canvas of the fill, fill = dst_nodata if given,
-    else NaN for a float DESTINATION, else 0 - whatever the source type is.  Placements incl. partial / disjoint."""
+    """source and destination of different pixel types (incl. bool on either side) through the public
+    rio_reproject(..., 'nearest'): the warp AND the planned paste must both equal the exact nearest-neighbour
+    reference - dst[d] = src[floor(T(d + 1/2))] in exact Fractions, cast the way numpy casts to the destination
+    type - on a canvas of the fill (dst_nodata if given, else NaN for a float DESTINATION, else 0 / False)."""
     from affine import Affine
     from odc.geo.overlap import compute_reproject_roi
     from odc.geo.warp import rio_reproject
@@ -409,24 +418,44 @@ def p_warp_mixed(src_shape, dst_shape, A, src_dtype, dst_dtype, dst_nodata, seed
         return True, "no paste planned"
     T = G.true_A(src, dst)
     ny, nx = src_shape
-    im = (np.arange(ny * nx).reshape(ny, nx) + 1).astype(src_dtype)       # 1..100
+    rng = core.rng(f"c10-mixed-{seed}")
+    if src_dtype == "bool":
+        im = np.array([[rng.random() < 0.5 for _ in range(nx)] for _ in range(ny)], dtype=bool).reshape(ny, nx)
+    elif dst_dtype == "bool":
+        pool = MIXED_POOL.get(src_dtype, MIXED_POOL["default"])
+        im = np.array([[rng.choice(pool) for _ in range(nx)] for _ in range(ny)]).reshape(ny, nx).astype(src_dtype)
+    else:
+        im = (np.arange(ny * nx).reshape(ny, nx) + 1).astype(src_dtype)       # 1..100
     dn = float("nan") if dst_nodata == "nan" else dst_nodata
     fill = dn if dn is not None else (float("nan") if dst_dtype.startswith("float") else 0)
-    want = np.full(tuple(dst_shape), fill, dtype=dst_dtype)
+    # exact nearest-neighbour reference
+    ref = np.full(tuple(dst_shape), fill, dtype=dst_dtype)
+    cast = im.astype(dst_dtype)
+    for dy in range(dst_shape[0]):
+        for dx in range(dst_shape[1]):
+            px, py = G.aapply(T, (dx + Fr(1, 2), dy + Fr(1, 2)))
+            kx, ky = math.floor(px), math.floor(py)
+            if 0 <= kx < nx and 0 <= ky < ny:
+                ref[dy, dx] = cast[ky, kx]
+    # the planned paste
+    pasted = np.full(tuple(dst_shape), fill, dtype=dst_dtype)
     block = im[r.roi_src]
     if T[4] < 0:
         block = block[::-1, :]
     if T[0] < 0:
         block = block[:, ::-1]
-    want[r.roi_dst] = block.astype(dst_dtype)
-    got = np.full(tuple(dst_shape), 77, dtype=dst_dtype)
+    pasted[r.roi_dst] = block
+    got = np.full(tuple(dst_shape), True if dst_dtype == "bool" and not fill else 77, dtype=dst_dtype)
     with warnings.catch_warnings():
         warnings.simplefilter("ignore")
         rio_reproject(im, got, src, dst, "nearest", dst_nodata=dn)
     cov = int(np.prod([s.stop - s.start for s in r.roi_dst]))
-    why = f"roi_src={r.roi_src} roi_dst={r.roi_dst} covered {cov} of {want.size} pixels, fill={fill}"
-    if not np.array_equal(got, want, equal_nan=dst_dtype.startswith("float")):
-        return False, why + f": {src_dtype} -> {dst_dtype} warp gives {got.tolist()} but pasted region + nodata elsewhere is {want.tolist()}"
+    why = f"roi_src={r.roi_src} roi_dst={r.roi_dst} covered {cov} of {ref.size} pixels, fill={fill}"
+    nan_ok = dst_dtype.startswith("float")
+    if not np.array_equal(pasted, ref, equal_nan=nan_ok):
+        return False, why + f": {src_dtype} -> {dst_dtype} planned paste gives {pasted.tolist()} but the exact nearest-neighbour image is {ref.tolist()}"
+    if not np.array_equal(got, ref, equal_nan=nan_ok):
+        return False, why + f": {src_dtype} -> {dst_dtype} warp of {im.tolist()} gives {got.tolist()} but the exact nearest-neighbour image is {ref.tolist()}"
     return True, why
 
 
@@ -503,6 +532,8 @@ def search(out, tier):
     # placements inside / partial / touching / disjoint
     mixed = [(s_, d_) for s_ in ("uint8", "int16", "uint16", "int32", "float32") for d_ in ("float32", "float64", "int32", "int16")
              if s_ != d_]
+    others = ("int8", "uint8", "int16", "uint16", "float32")
+    mixed += [("bool", d_) for d_ in others] + [(s_, "bool") for s_ in others]
     for i in range((3 if tier == "quick" else 20) * len(mixed)):
         sdt, ddt = mixed[i % len(mixed)]
         ns = (rng.randint(2, 10), rng.randint(2, 10))
@@ -511,6 +542,10 @@ def search(out, tier):
                          placements=("left", "right", "inside", "cover", "disjoint_lo", "disjoint_hi", "touch_hi", "left", "right"))
         A6[2], A6[5] = Fr(round(A6[2])) + rng.choice([Fr(0), Fr(1, 64)]), Fr(round(A6[5])) + rng.choice([Fr(0), Fr(-1, 64)])
         cands = [None, None, "nan", -1.0, 120.0] if ddt.startswith("float") else [None, 0, 120, -7]
+        if ddt == "bool":
+            cands = [None, None, True]          # not False: GDAL nudges valid zeros that equal dst_nodata
+        elif sdt == "bool":
+            cands = [None, "nan", -1.0, 120.0] if ddt.startswith("float") else ([None, 120] if ddt.startswith("u") else [None, 120, -7])
         out.count(f"mixed:{sdt}->{ddt}")
         run("warp_mixed", list(ns), list(nd), [str(v) for v in A6], sdt, ddt, rng.choice(cands), i)
     # every dtype x every way of giving src_nodata / dst_nodata, destinations only partly covered by the source
@@ -534,7 +569,7 @@ def search(out, tier):
                     run("warp_nodata", list(ns), list(nd), [str(v) for v in A6], dtype, s_nd, d_nd, seq)
     for i in range(600 if tier == "quick" else 6000):
         ttol, stol = rng.choice(TTOLS), rng.choice(STOLS)
-        k = rng.choice([1, 1, 2, 3, 4, 7, 10])
+        k = rng.choice([1, 1, 2, 3, 4, 2, 4, 7, 10])
         A6 = unit_family(rng, (8, 8), (6, 6), ttol, stol)
         A6 = [v * k for v in A6]
         r = rng.random()
